@@ -40,6 +40,10 @@ THEOREMS = [
     _S + "C14_then_valid",
     _S + "C14_rejects",
     _S + "C14_mode_set_old_refuted",
+    _S + "C14_geometry_validator_atomic",
+    _S + "C14_geometry_setter",
+    _S + "C14_geometry_per_container_refuted",
+    _S + "C14_geometry_probes",
     _C + "C14_collection",
     _C + "C14_append_renumber_atomic",
 ]
@@ -195,6 +199,9 @@ def targets(tw, kind):
         if kind == "universe":
             objs = [u for u in objs if u.number != 0]
         return objs
+    if kind == "geomcell":
+        # `cell.geometry &= g` needs a geometry to extend (a cell appended from scratch has none)
+        return [c for c in p.cells if c.geometry is not None]
     if kind == "axisplane":
         return [s for s in p.surfaces if isinstance(s, m.surfaces.axis_plane.AxisPlane)]
     if kind == "cylonaxis":
@@ -577,20 +584,166 @@ def _build_table():
         gen=gen_model("Cell", "material"),
         valid_weight=0.4,
     )
+    # ------------------------------------------------------------ geometry edits (one validator, five doors)
+    def GEOM(tree):
+        return {"t": "geom", "g": tree}
+
+    def AND(a, b):
+        return {"and": [a, b]}
+
+    def OR(a, b):
+        return {"or": [a, b]}
+
+    def key(rng):
+        return rng.randrange(10**6)
+
+    def owner_of(tw, tgt):
+        """the cell a geometry target belongs to (the target itself for `Cell.geometry`)"""
+        if isinstance(tgt, m.Cell):
+            return tgt
+        for c in tw.p.cells:
+            if c.geometry is tgt:
+                return c
+        return None
+
+    def other_cell(rng, tw, c, in_complements=False):
+        idx = [i for i, o in enumerate(tw.p.cells) if o is not c and (any(o is x for x in c.complements) == in_complements)]
+        return REF("cell", rng.choice(idx)) if idx else None
+
+    def surf_leaf(rng, spec):
+        return {"s": spec, "side": rng.random() < 0.5}
+
+    def new_surface(rng, tw):
+        return NEW(rng.choice(["surface", "cylinder"]), free_number(rng, tw, "surface"), key(rng))
+
+    def colliding_surface(rng, tw, c):
+        """a copy that was never renumbered: another Surface object with the number of a surface of the cell"""
+        nums = [x.number for x in c.surfaces]
+        return NEW("surface", rng.choice(nums), key(rng)) if nums else None
+
+    def mix(rng, a, b):
+        """both orders and both operators: the validator sees the leaves, not the tree"""
+        if a is None or b is None:
+            return None
+        if rng.random() < 0.5:
+            a, b = b, a
+        return (AND if rng.random() < 0.7 else OR)(a, b)
+
+    def g_valid(rng, tw, tgt):
+        c = owner_of(tw, tgt)
+        ns = len(tw.p.surfaces)
+        if c is None or ns < 2:
+            return None
+        i, j = rng.sample(range(ns), 2)
+        tree = mix(rng, surf_leaf(rng, REF("surface", i)), surf_leaf(rng, REF("surface", j)))
+        r = rng.random()
+        if r < 0.35:
+            oc = other_cell(rng, tw, c, in_complements=rng.random() < 0.3) or other_cell(rng, tw, c)
+            if oc is not None:
+                tree = mix(rng, tree, {"c": oc})
+        elif r < 0.55:
+            tree = mix(rng, tree, surf_leaf(rng, new_surface(rng, tw)))
+        return GEOM(tree)
+
+    def g_invalid(f):
+        def gen(rng, tw, tgt):
+            c = owner_of(tw, tgt)
+            if c is None:
+                return None
+            tree = f(rng, tw, c)
+            return GEOM(tree) if tree is not None else None
+
+        return gen
+
+    def _complement(spec):
+        return {"c": spec} if spec is not None else None
+
+    def _colliding_complement(rng, tw, c):
+        nums = [x.number for x in c.complements]
+        return {"c": NEW("cell", rng.choice(nums), key(rng))} if nums else None
+
+    def _two_sharing(rng, kind, n):
+        k = key(rng)
+        mk = (lambda kk: {"c": NEW("cell", n, kk)}) if kind == "cell" else (lambda kk: surf_leaf(rng, NEW("surface", n, kk)))
+        return AND(mk(k), mk(k + 1))
+
+    def _leaf_or_none(rng, spec):
+        return surf_leaf(rng, spec) if spec is not None else None
+
+    GEOM_COMPOSITE = {
+        # invalid for one reason while bringing valid new children of the other kind
+        "new-complement+colliding-surface-copy": g_invalid(
+            lambda rng, tw, c: mix(rng, _complement(other_cell(rng, tw, c)), _leaf_or_none(rng, colliding_surface(rng, tw, c)))
+        ),
+        "new-surface+complement-of-colliding-cell": g_invalid(
+            lambda rng, tw, c: mix(rng, surf_leaf(rng, new_surface(rng, tw)), _colliding_complement(rng, tw, c))
+        ),
+        "new-complement+two-new-surfaces-sharing-a-number": g_invalid(
+            lambda rng, tw, c: mix(rng, _complement(other_cell(rng, tw, c)), _two_sharing(rng, "surface", free_number(rng, tw, "surface")))
+        ),
+        "new-surface+two-new-complements-sharing-a-number": g_invalid(
+            lambda rng, tw, c: mix(rng, surf_leaf(rng, new_surface(rng, tw)), _two_sharing(rng, "cell", free_number(rng, tw, "cell")))
+        ),
+        # a leaf of the wrong kind deep inside a tree whose other leaves are new
+        "new-complement+cell-as-surface-divider": g_invalid(
+            lambda rng, tw, c: (lambda a, b: AND(a, {"raw": b["c"], "side": True, "cell": False}) if a and b else None)(
+                _complement(other_cell(rng, tw, c)), _complement(other_cell(rng, tw, c))
+            )
+        ),
+        "new-leaves+surface-as-cell-divider": g_invalid(
+            lambda rng, tw, c: (lambda a: AND(AND(a, surf_leaf(rng, new_surface(rng, tw))), {"raw": REF("surface", ridx(rng, tw, "surface")), "side": True, "cell": True}) if a else None)(
+                _complement(other_cell(rng, tw, c))
+            )
+        ),
+        "new-leaves+unresolved-int-divider": g_invalid(
+            lambda rng, tw, c: (lambda a: AND(AND(a, surf_leaf(rng, new_surface(rng, tw))), {"raw": I(rng.randint(1, 9)), "side": True, "cell": rng.random() < 0.3}) if a else None)(
+                _complement(other_cell(rng, tw, c))
+            )
+        ),
+    }
+    GEOM_WRONG_TYPE = {
+        "wrong-type-int": lambda rng, tw, tgt: I(1),
+        "wrong-type-str": lambda rng, tw, tgt: S("-1 2"),
+        "wrong-type-none": lambda rng, tw, tgt: NONE,
+        "wrong-type-surface": lambda rng, tw, tgt: REF("surface", 0),
+    }
+
+    def geom_model(ctor, gen_cls=None, gen_prop=None):
+        """geometry arguments go to the hand-written model of the validator; wrong-type atoms of a generated
+        property go to the generated-setter model"""
+
+        def f(tw, tgt, arg):
+            c = owner_of(tw, tgt)
+            if arg["t"] == "geom":
+                if c is None:
+                    return None
+                return {ctor: {"c": _cell_index(tw, c), "v": L.lean_geom(tw, arg, c)}}
+            if gen_cls is not None:
+                return gen_model(gen_cls, gen_prop)(tw, tgt, arg)
+            if c is None:
+                return None
+            return {ctor: {"c": _cell_index(tw, c), "v": L.lean_val(tw, arg)}}
+
+        return f
+
     mut(
         "Cell.geometry",
         "cell",
         _setattr("geometry"),
-        lambda rng, tw, tgt: None,
-        {
-            "wrong-type-int": lambda rng, tw, tgt: I(1),
-            "wrong-type-str": lambda rng, tw, tgt: S("-1 2"),
-            "wrong-type-none": lambda rng, tw, tgt: NONE,
-            "wrong-type-surface": lambda rng, tw, tgt: REF("surface", 0),
-        },
-        gen=gen_model("Cell", "geometry"),
-        valid_weight=0.0,
+        g_valid,
+        dict(GEOM_WRONG_TYPE, **GEOM_COMPOSITE),
+        geom_model("cellGeometry", "Cell", "geometry"),
+        valid_weight=0.5,
     )
+
+    def _iand(tw, tgt, v):
+        tgt.geometry &= v
+
+    def _ior(tw, tgt, v):
+        tgt.geometry |= v
+
+    for nm, fn in (("Cell.geometry&=", _iand), ("Cell.geometry|=", _ior)):
+        mut(nm, "geomcell", fn, g_valid, dict(GEOM_WRONG_TYPE, **GEOM_COMPOSITE), geom_model("geomChild"), valid_weight=0.25)
     dens_invalid = dict(
         FLOAT_INVALID,
         **{
@@ -1048,14 +1201,17 @@ def _build_table():
             "HalfSpace." + attr,
             "halfspace",
             _setattr(attr),
-            lambda rng, tw, tgt: None,
-            {
-                "wrong-type-int": lambda rng, tw, tgt: I(1),
-                "wrong-type-none": lambda rng, tw, tgt: NONE,
-                "wrong-type-surface": lambda rng, tw, tgt: REF("surface", 0),
-            },
-            gen=gen_model("HalfSpace", attr),
-            valid_weight=0.0,
+            g_valid,
+            dict(
+                {
+                    "wrong-type-int": lambda rng, tw, tgt: I(1),
+                    "wrong-type-none": lambda rng, tw, tgt: NONE,
+                    "wrong-type-surface": lambda rng, tw, tgt: REF("surface", 0),
+                },
+                **GEOM_COMPOSITE,
+            ),
+            geom_model("geomChild", "HalfSpace", attr),
+            valid_weight=0.12,
         )
     mut("UnitHalfSpace.side", "unithalfspace", _setattr("side"), lambda rng, tw, tgt: B(tgt.side), BOOL_INVALID, gen=gen_model("UnitHalfSpace", "side"), valid_weight=0.2)
     mut("UnitHalfSpace.is_cell", "unithalfspace", _setattr("is_cell"), lambda rng, tw, tgt: B(tgt.is_cell), BOOL_INVALID, gen=gen_model("UnitHalfSpace", "is_cell"), valid_weight=0.1)
@@ -1172,8 +1328,11 @@ def exec_case(source, script_or_plan, tmpdir, generate=None):
             try:
                 if m["model"] is not None:
                     w = L.world(A)
-                    if L.world_ok(w):
-                        mcase = {"unit": "hand", "world": w, "op": m["model"](A, ta, step["arg"])}
+                    op = m["model"](A, ta, step["arg"])
+                    if isinstance(op, dict) and "unit" in op:
+                        mcase = op  # a complete case of the other unit (wrong-type atoms of a generated property)
+                    elif op is not None and L.world_ok(w):
+                        mcase = {"unit": "hand", "world": _blank_geometry(w, op), "op": op}
                 elif m["gen"] is not None:
                     mcase = m["gen"](A, ta, step["arg"])
             except Exception as e:  # noqa: BLE001 - an argument the abstraction cannot express
@@ -1216,7 +1375,7 @@ def exec_case(source, script_or_plan, tmpdir, generate=None):
                 if mcase is not None:
                     post = None
                     if mcase.get("unit") == "hand" and out != "ok":
-                        post = L.world(A)
+                        post = _blank_geometry(L.world(A), mcase["op"])
                     model_cases.append({"case": mcase, "out": out, "post": post, "m": step["m"], "inject": step["inject"]})
                 if violation:
                     break
@@ -1227,7 +1386,7 @@ def exec_case(source, script_or_plan, tmpdir, generate=None):
                 if mcase is not None:
                     post = None
                     if mcase.get("unit") == "hand" and not step["m"].startswith("Importance") and step["m"] != "Cells.set_equal_importance":
-                        post = L.world(A)
+                        post = _blank_geometry(L.world(A), mcase["op"])
                         if not L.world_ok(post):
                             post = None
                     model_cases.append({"case": mcase, "out": oa, "post": post, "m": step["m"], "inject": None})
@@ -1265,6 +1424,14 @@ def exec_case(source, script_or_plan, tmpdir, generate=None):
     finally:
         signal.signal(signal.SIGALRM, old)
     return {"script": script, "events": events, "model_cases": model_cases, "violation": violation}
+
+
+def _blank_geometry(w, op):
+    """`geomChild` (left / right / &= / |=) models the cell's containers only, not the tree: its text is not compared"""
+    if isinstance(op, dict) and "geomChild" in op:
+        for c in w["cells"]:
+            c["geometry"] = ""
+    return w
 
 
 def _last_injected(script, key="m"):
@@ -1356,6 +1523,32 @@ def corpus_cases():
         },
         # append_renumber used to link the object before it could fail (was finding C14-F1, repaired: regression case)
         {"source": g0, "script": [st("Collection.append_renumber", 0, TUP(NEW("cell", 1, 1), I(0)), "zero-step")]},
+        # a rejected geometry edit: new complement + a surface copy whose number the cell already uses (seeded C14c:
+        # one extend per container left the complement behind) ...
+        {
+            "source": g0,
+            "script": [
+                st(
+                    "Cell.geometry",
+                    4,
+                    {"t": "geom", "g": {"and": [{"c": REF("cell", 0)}, {"s": NEW("surface", 5, 7), "side": True}]}},
+                    "new-complement+colliding-surface-copy",
+                )
+            ],
+        },
+        # ... and new complement + a cell used as the divider of a surface half-space (TypeError from the second
+        # phase after the complement had been added; repaired by a fix: commit)
+        {
+            "source": g0,
+            "script": [
+                st(
+                    "Cell.geometry",
+                    4,
+                    {"t": "geom", "g": {"and": [{"c": REF("cell", 0)}, {"raw": REF("cell", 1), "side": True, "cell": False}]}},
+                    "new-complement+cell-as-surface-divider",
+                )
+            ],
+        },
     ]
 
 
